@@ -215,6 +215,10 @@ def check_property(pid, tier, cache=True, only_groups=None):
                     g['failed'] = still
                     if not still:
                         continue
+            if verdict == 'none' and grp.strength == 'B' and not any(f['result'] == 'sat' for f in g['failed']):
+                # bounded goals are quantifier-free: only a model (sat) refutes one. `unknown` within budget = undecided
+                undecided.append((gn, 'bounded goals left undecided by the solvers within budget: %s' % [f['subgoals'][0] for f in g['failed']][:5]))
+                continue
             first = g['failed'][0]
             path = replay_path(pid, first['job'])
             if verdict == 'mismatch':
